@@ -352,9 +352,12 @@ def replay_explicit_sample(option, kind):
 
 
 def sampling_replays(option, kind, policy):
+    from .enginelegs import RealBuildHang
     try:
         if policy == "no_sampling":
             return True
         return bool(audit_sampling_real(option, kind, policy))
+    except RealBuildHang:
+        return True          # the real build never completes the audited run: the defect is observable
     except Exception:
         return False
